@@ -4,7 +4,7 @@
 Exit codes: 0 = the property held on everything explored (KNOWN-FINDING lines possible),
 1 = at least one violation not listed in known_findings.jsonl (VIOLATION lines),
 2 = infrastructure / specification error (nothing is claimed)."""
-import argparse, json, os, shutil, sys, time, traceback
+import argparse, json, os, re, shutil, sys, time, traceback
 
 sys.path.insert(0, os.path.dirname(os.path.abspath(__file__)))
 import vf
@@ -862,6 +862,87 @@ def check_c20(tier, seed, work):
     return cov, r.get("violations") or []
 
 
+def check_gen(prop, tier, seed, work):
+    """C26 / C27 / C29: SchemaGen.tla cases -> YANG -> generator built from the working tree ->
+    one binary over all generated packages (compile check) -> dump of structs, embedded schema
+    and path API -> comparison with the model, goyang and the embedded schema."""
+    import genfam
+    mc, cases = genfam.model_cases(work, tier)
+    sel = genfam.select(cases, tier, seed, limit=None if tier == "quick" else 240)
+    if prop == "C29":
+        sel = [x for x in sel if x[0]["beh"] in genfam.COMPRESSING]
+    h, bindir, cs = genfam.prepare_cases(work, sel, path_structs=(prop == "C29"))
+    viol = []
+    for c in cs:
+        if not c.gen_ok:
+            viol.append(dict(property=prop if prop != "C27" else "C26", sig=c.sig("generator-error", msg=re.sub(r"[^a-z ]", "", c.gen_out.strip().splitlines()[-1].lower())[:60] if c.gen_out.strip() else ""),
+                             detail="%s: the generator fails on a schema of the supported subset: %s" % (c.label(), c.gen_out.strip()[-600:]), case=c.case()))
+    build_out, dumps = genfam.dump_all(h, bindir, work, cs)
+    counters = dict(cases=len(cs), generated=sum(1 for c in cs if c.gen_ok), fields=0, schema_nodes=0, path_calls=0)
+    drift = set()
+    if build_out:
+        # find the packages that do not compile, report them, and rebuild without them
+        bad = sorted(set(re.findall(r"gen/(g\d+)/", build_out)))
+        for c in cs:
+            if c.name in bad:
+                c.gen_ok = False
+                lines = [l for l in build_out.splitlines() if "gen/%s/" % c.name in l]
+                viol.append(dict(property="C26", sig=c.sig("compile-error", msg=re.sub(r"[^a-zA-Z ]", "", lines[0].split(": ", 1)[-1])[:60] if lines else ""),
+                                 detail="%s: the generated package does not compile: %s" % (c.label(), " ; ".join(lines[:4])), case=c.case()))
+        if not bad:
+            raise Infra("gendump does not build:\n" + build_out[-3000:])
+        build_out, dumps = genfam.dump_all(h, bindir, work, cs)
+        if build_out:
+            raise Infra("gendump does not build after removing %s:\n%s" % (bad, build_out[-3000:]))
+    if prop == "C26":
+        pkgs = ["./gen/%s" % c.name for c in cs if c.gen_ok]
+        p, _ = vf.sh(["go", "vet"] + pkgs, cwd=h, check=False)
+        if p.returncode != 0:
+            for c in cs:
+                lines = [l for l in p.stdout.splitlines() if "gen/%s/" % c.name in l]
+                if lines:
+                    viol.append(dict(property="C26", sig=c.sig("vet", msg=re.sub(r"[^a-zA-Z ]", "", lines[0].split(": ", 1)[-1])[:60]),
+                                     detail="%s: go vet: %s" % (c.label(), " ; ".join(lines[:4])), case=c.case()))
+            if not any(v["sig"]["conjunct"] == "vet" for v in viol):
+                raise Infra("go vet failed without a diagnostic in a generated package:\n" + p.stdout[-2000:])
+        counters["vetted_packages"] = len(pkgs)
+    for c in cs:
+        if not c.gen_ok:
+            continue
+        d = dumps.get(c.name)
+        if d is None:
+            raise Infra("no dump for %s" % c.name)
+        if prop == "C26":
+            counters["fields"] += genfam.check_structs(c, d, viol, drift)
+        elif prop == "C27":
+            gy = genfam.goyang_dump(bindir, work, c)
+            counters["schema_nodes"] += genfam.check_schema(c, d, gy, viol)
+        elif prop == "C29":
+            counters["path_calls"] += genfam.check_paths(c, d, viol)
+            # the same paths the GoStruct tags give
+            gp = genfam.gostruct_paths(d)
+            for pc in d.get("paths") or []:
+                if pc.get("resolved"):
+                    sp = "/" + "/".join(e[0] for e in genfam.parse_path(pc["resolved"]))
+                    if sp not in gp and sp != "/":
+                        viol.append(dict(property="C29", sig=c.sig("not-a-gostruct-path"), detail="%s: %s resolves to %s, which no GoStruct field's path tag gives" % (c.label(), pc["chain"], pc["resolved"]), case=c.case()))
+    if prop == "C29" and not counters["path_calls"]:
+        raise Infra("vacuous: no path accessor was resolved")
+    for x in sorted(drift)[:10]:
+        log("SPEC-DRIFT:", x)
+    expl = {"C26": "every generated package is compiled into one binary and vetted; by reflection every struct is matched with the directory of the model it stands for and every field with the model's field (set of relative schema paths, Go type class, list key types, shadow paths); every path / module tag is resolved in the embedded schema and its node kind compared with the Go type class",
+            "C27": "UnzipSchema() of every generated package is walked (choice / case nodes included) and compared node by node and attribute by attribute (kind, keys, config, inherited read-only, ordered-by, min/max-elements, presence, mandatory, default, prefix, full type incl. ranges, lengths, patterns, enum values, identity base and members, union members, leafref path, type default) with goyang's compilation of the same source, and with the model's node attributes",
+            "C29": "every accessor of the generated path API (concrete keys with distinctive values of every key type, every wildcard variant) is called by reflection from DeviceRoot and resolved with ygot.ResolvePath; the result must be the data-tree path of the model's field (any of its primary paths), every list element must carry exactly its list's keys with the values passed or '*', every field of the model must be reachable, and the path must be one the GoStruct tags give"}[prop]
+    cov = dict(states=mc["distinct"], transitions=mc["states"], traces_validated_against_impl=counters["cases"], exhaustive=False, counters=counters,
+               samples=[cs[0].label(), cs[-1].label()], flag_sets=genfam.FLAGSETS, spec_drift=sorted(drift)[:20],
+               explanation="SchemaGen.tla: abstract schemas (plain / OpenConfig shape x key types x second key type x ordered-by x leaf-list type x extras: "
+               "colliding names, choice, grouping, augment, presence, config false subtree with unkeyed and keyed lists, identityref, leafref) x the five "
+               "compression behaviours, with TLC-checked ExactlyOnce / PathsDistinct / StateExcluded; " + expl + ". Flag sets rotate over the cases: " +
+               "min (simple unions), full (all generate_* options, annotations, presence tags, wrapper unions), alt (no ordered maps, no enum de-duplication, shadow paths). "
+               "Not random schemas: the feature space of the model, enumerated.")
+    return cov, viol
+
+
 PROTOMAP_CFG = """SPECIFICATION Spec
 CONSTANTS
   Family = "%s"
@@ -903,6 +984,9 @@ def check_c24(tier, seed, work):
 
 PIPELINES = {
     "C24": check_c24,
+    "C26": lambda tier, seed, work: check_gen("C26", tier, seed, work),
+    "C27": lambda tier, seed, work: check_gen("C27", tier, seed, work),
+    "C29": lambda tier, seed, work: check_gen("C29", tier, seed, work),
     "C10": lambda tier, seed, work: check_tree("C10", tier, seed, work, "set,setll", ["SetGetFrame"]),
     "C12": lambda tier, seed, work: check_tree("C12", tier, seed, work, "delete", ["DeleteExact"]),
     "C01": lambda tier, seed, work: check_treelaws("C01", tier, seed, work, "c01", ["RoundTrip7951"]),
